@@ -67,7 +67,7 @@ def _chunk_worker(args):
     modname, seed, lo, hi, tr, systematic_plans = args
     faulthandler.enable()
     mod = sys.modules[modname]
-    out = {'n': 0, 'ok': 0, 'skip': 0, 'viol': [], 'counters': {}, 'digests': [],
+    out = {'n': 0, 'evals': 0, 'ok': 0, 'skip': 0, 'viol': [], 'counters': {}, 'digests': [],
            'sites': set(), 'skips': {}, 'samples': [], 'harness': None, 'events': 0,
            'all_digest': []}
     plans = []
@@ -91,6 +91,7 @@ def _chunk_worker(args):
             out['harness_plan'] = pl
             break
         out['n'] += 1
+        out['evals'] += res.get('evals', 1)
         _merge_counters(out['counters'], res.get('counters', {}))
         out['events'] += res.get('events', 0)
         out['all_digest'].append(res.get('digest', '')[:8])
@@ -105,11 +106,11 @@ def _chunk_worker(args):
             out['viol'].append({'plan': pl, 'invariant': res['invariant'],
                                 'detail': res.get('detail', {}), 'sig': res['sig']})
             if res.get('nontrivial'):
-                out['digests'].append(P.digest(pl)[:16])
+                out['digests'].append((P.digest(pl)[:16], res.get('weight', 1)))
         else:
             out['ok'] += 1
             if res.get('nontrivial'):
-                out['digests'].append(P.digest(pl)[:16])
+                out['digests'].append((P.digest(pl)[:16], res.get('weight', 1)))
             if len(out['samples']) < 1 and res.get('nontrivial'):
                 out['samples'].append(pl)
     out['sites'] = sorted(out['sites'])
@@ -129,7 +130,7 @@ def run_batch(mod, seed, tr, n_runs, budget_s):
             jobs.append((mod.__name__, seed, 0, 0, tr, sysplans[k:k + 50]))
     for lo in range(0, n_runs, chunk):
         jobs.append((mod.__name__, seed, lo, min(n_runs, lo + chunk), tr, None))
-    merged = {'n': 0, 'ok': 0, 'skip': 0, 'viol': [], 'counters': {}, 'digests': set(),
+    merged = {'n': 0, 'evals': 0, 'ok': 0, 'skip': 0, 'viol': [], 'counters': {}, 'digests': {},
               'sites': set(), 'skips': {}, 'samples': [], 'harness': None, 'events': 0,
               'truncated': False, 'all_digest': []}
     ctx = multiprocessing.get_context('fork')
@@ -178,12 +179,14 @@ def run_batch(mod, seed, tr, n_runs, budget_s):
         if res is None:
             continue
         merged['n'] += res['n']
+        merged['evals'] += res['evals']
         merged['ok'] += res['ok']
         merged['skip'] += res['skip']
         merged['viol'].extend(res['viol'])
         _merge_counters(merged['counters'], res['counters'])
         _merge_counters(merged['skips'], res['skips'])
-        merged['digests'].update(res['digests'])
+        for dg, wt in res['digests']:
+            merged['digests'][dg] = wt
         merged['sites'].update(res['sites'])
         merged['events'] += res['events']
         merged['all_digest'].extend(res['all_digest'])
@@ -203,24 +206,30 @@ def same_failure(mod, pl, sig):
     try:
         res = safe_execute(mod, pl, timeout_s=30)
     except Exception:
-        return False
-    return res['status'] == 'violation' and res['sig'] == sig
+        return None
+    if res['status'] == 'violation' and res['sig'] == sig:
+        return res
+    return None
 
 
-def shrink(mod, pl, sig, budget=SHRINK_BUDGET):
+def shrink(mod, pl, sig, detail=None, budget=SHRINK_BUDGET):
     if not hasattr(mod, 'shrink_candidates'):
         return pl, 0
+    wants_detail = mod.shrink_candidates.__code__.co_argcount >= 2
     used = 0
     improved = True
     cur = pl
     while improved and used < budget:
         improved = False
-        for cand in mod.shrink_candidates(cur):
+        cands = mod.shrink_candidates(cur, detail) if wants_detail else mod.shrink_candidates(cur)
+        for cand in cands:
             if used >= budget:
                 break
             used += 1
-            if same_failure(mod, cand, sig):
+            res = same_failure(mod, cand, sig)
+            if res is not None:
                 cur = cand
+                detail = res.get('detail', detail)
                 improved = True
                 break
     return cur, used
@@ -247,8 +256,9 @@ def write_evidence(mod, tr, seed, merged, violations, known_counts, extra=None):
     os.makedirs(d, exist_ok=True)
     wall = merged.get('wall_s', 0.0)
     cov = {
-        'evaluations': merged['n'],
-        'distinct_nontrivial': len(merged['digests']),
+        'evaluations': merged['evals'],
+        'plans_executed': merged['n'],
+        'distinct_nontrivial': sum(merged['digests'].values()),
         'rule': mod.RULE,
         'samples': merged['samples'][:3] or [{'note': 'no non-trivial sample recorded'}],
         'runs_per_hour': int(merged['n'] / wall * 3600) if wall > 0 else 0,
@@ -324,7 +334,7 @@ def run_check(mod):
         print('signature %s x%d' % (key, len(unknown[key])))
     for key in sorted(unknown)[:MAX_REPORTED]:
         v = min(unknown[key], key=lambda x: len(P.canon(x['plan'])))
-        small, used = shrink(mod, v['plan'], v['sig'])
+        small, used = shrink(mod, v['plan'], v['sig'], v.get('detail'))
         res = safe_execute(mod, small)
         if res['status'] == 'violation':
             v2 = {'invariant': res['invariant'], 'sig': res['sig'], 'detail': res.get('detail', {})}
@@ -339,7 +349,7 @@ def run_check(mod):
     path = write_evidence(mod, tr, seed, merged, n_viol, known_counts)
     print('runs=%d ok=%d skipped=%d violations=%d known=%d distinct_nontrivial=%d wall=%.1fs evidence=%s' % (
         merged['n'], merged['ok'], merged['skip'], n_viol, sum(known_counts.values()),
-        len(merged['digests']), merged['wall_s'], path))
+        sum(merged['digests'].values()), merged['wall_s'], path))
     if merged['skips']:
         print('skipped by reason: %s' % json.dumps(dict(sorted(merged['skips'].items()))))
     for ln in lines:
